@@ -1333,7 +1333,7 @@ def m_iter_sum(it, st, fr, t, args, ga):
 
 # ---------------------------------------------------------------- lazy iterator chains
 
-_LAZY_ADAPTORS = {'map': 'map', 'filter': 'filter', 'flat_map': 'flat_map', 'flatten': 'flatten', 'chain': 'chain', 'enumerate': 'enumerate',
+_LAZY_ADAPTORS = {'map': 'map', 'filter': 'filter', 'flat_map': 'flat_map', 'flatten': 'flatten', 'chain': 'chain', 'enumerate': 'enumerate', 'zip': 'zip',
                   'rev': 'same', 'skip': 'same', 'take': 'same', 'step_by': 'same', 'peekable': 'same', 'fuse': 'same', 'copied': 'deref', 'cloned': 'deref',
                   'take_while': 'same', 'skip_while': 'same', 'inspect': 'same', 'by_ref': 'same'}
 
@@ -1358,6 +1358,8 @@ def lazy_iter_model(it, st, cands, args):
     trait = '::'.join(cands[0][0].split('::')[:-1])
     a0 = it.deref(st, args[0]) if isinstance(args[0], I.RefV) else args[0]
     if isinstance(a0, I.LazyIterV):
+        if name == 'sum' and 'Iterator' in trait:
+            return m_lazy_sum
         if name == 'next' and 'Iterator' in trait:
             return m_lazy_next
         if name in ('any', 'all') and 'Iterator' in trait:
@@ -1374,7 +1376,7 @@ def lazy_iter_model(it, st, cands, args):
     if not _iter_like(it, st, args[0]):
         return None
     kind = _LAZY_ADAPTORS[name]
-    lazy_needed = isinstance(a0, (I.LazyIterV, I.ArrV)) or kind in ('map', 'filter', 'flat_map', 'flatten', 'chain', 'enumerate') \
+    lazy_needed = isinstance(a0, (I.LazyIterV, I.ArrV)) or kind in ('map', 'filter', 'flat_map', 'flatten', 'chain', 'enumerate', 'zip') \
         or (isinstance(a0, I.EnumV))
     if not lazy_needed:
         return None
@@ -1385,8 +1387,8 @@ def lazy_iter_model(it, st, cands, args):
         inner = args_[0]
         if kind in ('map', 'filter', 'flat_map'):
             return I.LazyIterV(kind, inner, clo=args_[1])
-        if kind == 'chain':
-            return I.LazyIterV('chain', inner, other=args_[1])
+        if kind in ('chain', 'zip'):
+            return I.LazyIterV(kind, inner, other=args_[1])
         return I.LazyIterV(kind, inner)
     return build
 
@@ -1451,6 +1453,12 @@ def _lazy_elems(it, st, v, depth=0):
             return out
         if k == 'chain':
             return _lazy_elems(it, st, v.inner, depth + 1) + _lazy_elems(it, st, v.other, depth + 1)
+        if k == 'zip':
+            out = []
+            for s, x in _lazy_elems(it, st, v.inner, depth + 1):
+                for s2, y in _lazy_elems(it, s, v.other, depth + 1):
+                    out.append((s2, I.TupleV([x, y])))
+            return out
         if k == 'map':
             return [(s, it.call_closure(s, v.clo, [x])) for s, x in _lazy_elems(it, st, v.inner, depth + 1)]
         if k == 'filter':
@@ -1763,6 +1771,30 @@ def m_enum_eq(negate):
                     raise I.InterpError('equality of %r and %r is not modelled' % (x, y))
         return I.BoolV(bnot(r) if negate else r)
     return m
+
+
+
+def m_lazy_sum(it, st, fr, t, args, ga):
+    """sum over `(0..n).zip(X).map(|(_, x)| x)`: the first n items of X, i.e. the same term as `X.take(n).sum()`"""
+    v = it.deref(st, args[0]) if isinstance(args[0], I.RefV) else args[0]
+    if isinstance(v, I.LazyIterV) and v.kind == 'map' and isinstance(v.inner, I.LazyIterV) and v.inner.kind == 'zip':
+        a, b = v.inner.inner, v.inner.other
+        a = it.deref(st, a) if isinstance(a, I.RefV) else a
+        b = it.deref(st, b) if isinstance(b, I.RefV) else b
+        rng, seq = (a, b) if isinstance(b, I.ContV) else (b, a)
+        if isinstance(rng, I.StructV) and rng.path.split('::')[-1] == 'Range' and isinstance(seq, I.ContV) \
+                and rng.get('start').term == ZERO:
+            sp = st.fork()
+            i = I.Num(sp.ctx.sym_range(sp.fresh_name('zip_i'), 0, 2 ** 32, integer=True), 'usize')
+            x = it.sym_value(sp, seq.elem_ty or {'k': 'float', 'n': 'f32'}, sp.fresh_name('zip_x'))
+            xr = x if (seq.extra or {}).get('by_value') else I.RefV(sp.new_cell(x))
+            pair = I.TupleV([i, xr] if rng is a else [xr, i])
+            r = it.call_closure(sp, v.clo, [pair])
+            r = it.deref(sp, r) if isinstance(r, I.RefV) else r
+            if isinstance(r, I.Num) and isinstance(x, I.Num) and r.term == x.term:
+                n = rng.get('end').term
+                return m_iter_sum(it, st, fr, t, [I.ContV('iter', ('take', seq.term, n), elem_ty=seq.elem_ty)], ga)
+    raise I.InterpError('sum over %r is not modelled' % (v,))
 
 
 _NORM = [
